@@ -6164,3 +6164,7 @@ mod tests {
         );
     }
 }
+
+#[cfg(kani)]
+#[path = "/verif/harness/anda_db_btree/btree.rs"]
+mod verif_kani;
